@@ -168,11 +168,11 @@ func c03Case(c *mon.Ctx, idx int, r *mon.Rand) {
 		case "plain":
 			prec = mon.NewPlainRec(true)
 			opts.Reporter = prec
-			root, _ = tally.VerifNewRootScope(opts, 0, uint(r.Range(1, 4)))
+			root, _ = vNewRoot(opts, 0, uint(r.Range(0, 4)))
 		case "cached":
 			crec = mon.NewCachedRec(true)
 			opts.CachedReporter = crec
-			root, _ = tally.VerifNewRootScope(opts, 0, uint(r.Range(1, 4)))
+			root, _ = vNewRoot(opts, 0, uint(r.Range(0, 4)))
 		case "test":
 			if form == "nil-rootdefault" {
 				continue // NewTestScope has no option for default buckets
